@@ -33,6 +33,23 @@ Proof. exact (fun o g f1 f2 => front_fuel_irrelevant src_cfg o g f1 f2 C23_sourc
 Print Assumptions C23_resolution_terminates.
 
 (* ---- witnesses *)
+(* The alias-cycle repair is conservative: with the guard removed from the current source facts, rule-reference
+   resolution either exhausts the recursion budget or gives exactly the outcome of the current source. *)
+Theorem C23_alias_repair_conservative : forall (fuel : nat) (rs : list rule),
+  resolve_rule_refs (with_alias_guard src_cfg None) fuel rs = Crash KRecursion
+  \/ resolve_rule_refs (with_alias_guard src_cfg None) fuel rs = resolve_rule_refs src_cfg fuel rs.
+Proof. exact (fun fuel rs => alias_repair_conservative src_cfg _ fuel rs eq_refl). Qed.
+Print Assumptions C23_alias_repair_conservative.
+
+(* ... and a reference that the unguarded code resolves with some budget is resolved identically, for every larger
+   budget, by the guarded code: the guard rejects only what never terminated. *)
+Theorem C23_guard_rejects_only_divergence : forall (rs : list rule) (fuel : nat) (n : list N),
+  follow pinned_cfg rs fuel [] n <> Crash KRecursion ->
+  forall fuel', fuel' >= fuel ->
+    follow pinned_cfg rs fuel' [] n = follow (with_alias_guard pinned_cfg (Some CSemantic)) rs fuel' [] n.
+Proof. exact (fun rs => unguarded_never_recovers pinned_cfg rs CSemantic eq_refl). Qed.
+Print Assumptions C23_guard_rejects_only_divergence.
+
 (* ---- witnesses: the grammars and oracles are defined in Proofs/FrontProofs.v (section Witnesses) *)
 
 (* Non-vacuity: the same inputs are TextX errors with the current source, for any admissible budget. *)
